@@ -7,7 +7,7 @@
 EXTENDS MC_FramingDec, Json
 VARIABLE sched
 GInit == Init /\ sched = <<>>
-GNext == Next /\ sched' = IF dl' # dl THEN Append(sched, dl' - dl) ELSE sched
+GNext == Next /\ sched' = IF dl' # dl THEN Append(sched, dl' - dl) ELSE IF empties' # empties THEN Append(sched, 0) ELSE sched
 GSpec == GInit /\ [][GNext]_<<vars, sched>>
 Terminals == Cardinality({ i \in 1..Len(res) : res[i].r \in {"end", "err"} })
 \* stop exploring a behaviour after its second terminal result
